@@ -4,6 +4,7 @@ package c03
 import (
 	"encoding/json"
 	"fmt"
+	"regexp"
 	"strings"
 	"testing"
 
@@ -353,8 +354,21 @@ func judgeProg(c ProgCase) vdrv.Verdict {
 		v.Observed = fmt.Sprintf("%d events; output %d bytes", len(ref.Events), len(out))
 		return v
 	}
-	return vdrv.Fail("trace of minified program differs", ref.Trace(), got.Trace()+"\n--- output\n"+out)
+	v := vdrv.Fail("trace of minified program differs", ref.Trace(), got.Trace()+"\n--- output\n"+out)
+	if c.KeepNames && strings.Contains(got.End, "TypeError") {
+		// known finding C03-keep-names-self-reassigning-function: `__name(f, "f")` is placed after the text of a
+		// function declaration; a hoisted function that is called earlier and reassigns its own binding hands
+		// __name a non-object. Signature: the failure disappears when the helper tolerates a non-function target.
+		if repaired := nameHelperRe.ReplaceAllString(out, `(typeof $2=="function"&&$0)`); repaired != out {
+			if got2, err := W.Script(repaired, false); err == nil && got2.Trace() == ref.Trace() {
+				v.Known = "C03-keep-names-self-reassigning-function"
+			}
+		}
+	}
+	return v
 }
+
+var nameHelperRe = regexp.MustCompile(`([\w$]+)\(([\w$]+),\s*"name",\s*\{\s*value(?::\s*[\w$]+)?,\s*configurable:\s*(?:true|!0)\s*\}\)`)
 
 func b2i(b bool) int {
 	if b {
